@@ -99,15 +99,16 @@ MC_CFG = """SPECIFICATION MCSpec
 CONSTANTS
   Tier = "{tier}"
   Modes = {{{modes}}}
-  MDepth = {depth}
-  MRDepth = {depth}
+  MDepth = 2
+  MRDepth = 2
   ValueRegs = {{{regs}}}
   Slices = {slices}
   Slice = {slice}
-  Ops <- GOps
-  Rcs <- GRcs
-  Vers <- GVers
-  ELos <- GELos
+  Ops <- MOps
+  Rcs <- MRcs
+  Names <- MNames
+  Vers <- MVers
+  ELos <- MELos
   RVals <- GRVals
   RTexts <- GRTexts
 INVARIANT FieldLaws
@@ -138,7 +139,7 @@ def model_runs(ctx):
     def one(p):
         modes, regs, slices, sl = p
         name = "mc_%s_%s_%d.cfg" % ("-".join(modes)[:20], "-".join(regs)[:12], sl)
-        cfg = ctx.cfg(name, MC_CFG.format(tier=ctx.tier, modes=q(modes), regs=q(regs), slices=slices, slice=sl, depth=2 if ctx.tier == "quick" else 3))
+        cfg = ctx.cfg(name, MC_CFG.format(tier=ctx.tier, modes=q(modes), regs=q(regs), slices=slices, slice=sl))
         return ctx.model("MC_Registries", cfg, workers=1)
 
     with cf.ThreadPoolExecutor(max_workers=10) as ex:
@@ -163,7 +164,7 @@ def run(ctx):
             model_runs(ctx)
         items = gen(ctx, STATIC + ["hb", "rb"], depth=2, rdepth=2 if quick else 3)
         if not quick:  # deeper header behaviours over the small call universe
-            items += gen(ctx, ["hb"], depth=4, tag="deep", hset="small")
+            items += gen(ctx, ["hb"], depth=3, tag="deep", hset="small")
         items += [["text", reg, s] for reg in ("type", "class", "rcode") for s in FOREIGN]
         ctx.extra["universe_sizes"] = dict(collections.Counter(it[0] for it in items))
         ctx.extra["exhaustive"] = True
